@@ -60,11 +60,16 @@ pub struct HCfg {
     pub known_seq: u64,
     /// packet-filter quotas (ip, node, total): n tokens every n seconds
     pub rate_limits: Option<(u64, u64, u64)>,
+    /// handlers listen on IPv6 (single stack) instead of IPv4
+    pub ipv6: bool,
+    /// when the application answers who-are-you queries and inbound requests is free (like the
+    /// timing of submissions): only departures from the network / timer default cost a deviation
+    pub free_app_timing: bool,
 }
 
 impl Default for HCfg {
     fn default() -> Self {
-        HCfg { nodes: 2, workload: vec![], retries: 1, session_timeout: None, session_capacity: None, allow_drop: true, allow_dup: true, allow_reorder: true, allow_restart: vec![], allow_late_way: true, allow_early_timer: true, force_nonce: false, packet_filter: false, ghost: None, known_seq: 1, rate_limits: None }
+        HCfg { nodes: 2, workload: vec![], retries: 1, session_timeout: None, session_capacity: None, allow_drop: true, allow_dup: true, allow_reorder: true, allow_restart: vec![], allow_late_way: true, allow_early_timer: true, force_nonce: false, packet_filter: false, ghost: None, known_seq: 1, rate_limits: None, ipv6: false, free_app_timing: false }
     }
 }
 
@@ -195,6 +200,10 @@ pub struct World {
     /// internal requests whose answer the handler consumed (session no longer awaits them)
     pub awaited_seen: BTreeSet<(usize, Vec<u8>)>,
     pub internal_answers_now: BTreeSet<(usize, Vec<u8>)>,
+    pub last_use_pending: Vec<(usize, [u8; 16])>,
+    /// harness-side record of when node i last really used its session with a peer address
+    /// (encrypted a datagram under its key, or received a datagram that decrypts under it)
+    pub last_use: BTreeMap<(usize, [u8; 16]), Instant>,
     /// when each challenge (by its challenge data) was first seen in a snapshot
     pub challenge_seen: BTreeMap<Vec<u8>, Instant>,
     /// attacker memory (challenge data of its own WHOAREYOUs, ...)
@@ -216,7 +225,11 @@ pub fn workload_id(k: usize) -> Vec<u8> {
     vec![0xA0 + k as u8, 0x01]
 }
 
-fn listen_for(i: usize) -> (ListenConfig, SocketAddr) {
+fn listen_for(i: usize, ipv6: bool) -> (ListenConfig, SocketAddr) {
+    if ipv6 {
+        let ip = std::net::Ipv6Addr::new(0x2001, 0xdb8, 0, 0, 0, 0, 0, 0x10 + i as u16);
+        return (ListenConfig::Ipv6 { ip, port: 9000 }, SocketAddr::new(ip.into(), 9000));
+    }
     let ip = std::net::Ipv4Addr::new(10, 0, 0, 10 + i as u8);
     (ListenConfig::Ipv4 { ip, port: 9000 }, SocketAddr::new(ip.into(), 9000))
 }
@@ -224,7 +237,7 @@ fn listen_for(i: usize) -> (ListenConfig, SocketAddr) {
 impl World {
     pub async fn spawn_handler(cfg: &HCfg, i: usize, generation: u32) -> HNode {
         let key = util::key(100 + i as u16);
-        let (listen, addr) = listen_for(i);
+        let (listen, addr) = listen_for(i, cfg.ipv6);
         let enr = util::enr4(&key, 1, addr);
         let mut b = ConfigBuilder::new(listen);
         b.executor(Box::new(discv5::TokioExecutor));
@@ -294,6 +307,8 @@ impl World {
             log_mark: 0,
             awaited_seen: BTreeSet::new(),
             internal_answers_now: BTreeSet::new(),
+            last_use_pending: vec![],
+            last_use: BTreeMap::new(),
             challenge_seen: BTreeMap::new(),
             scratch: vec![],
             proved: BTreeSet::new(),
@@ -547,6 +562,9 @@ impl World {
     }
 
     pub fn enabled(&self) -> Vec<(Ev, u32)> {
+        if self.cfg.free_app_timing {
+            return self.enabled_free_app();
+        }
         let mut out: Vec<(Ev, u32)> = vec![];
         let def = self.default_event();
         let push = |e: Ev, cost: u32, out: &mut Vec<(Ev, u32)>| {
@@ -581,6 +599,63 @@ impl World {
             }
             if !n.inbound.is_empty() {
                 push(Ev::Respond(n.idx), 1, &mut out);
+            }
+        }
+        if self.cfg.allow_early_timer && self.earliest_deadline().is_some() {
+            push(Ev::Timer, 1, &mut out);
+        }
+        for r in &self.cfg.allow_restart {
+            if self.nodes[*r].generation == 0 {
+                push(Ev::Restart(*r), 1, &mut out);
+            }
+        }
+        out
+    }
+
+    /// Cost model with free application timing: truthful who-are-you answers, responses and
+    /// submissions cost nothing whenever they happen; the network / timer default (deliver the
+    /// oldest datagram, else fire the earliest timer) costs nothing; everything else costs 1.
+    fn enabled_free_app(&self) -> Vec<(Ev, u32)> {
+        let mut out: Vec<(Ev, u32)> = vec![];
+        let push = |e: Ev, cost: u32, out: &mut Vec<(Ev, u32)>| {
+            if !out.iter().any(|(x, _)| *x == e) {
+                out.push((e, cost));
+            }
+        };
+        for n in &self.nodes {
+            if !n.way_queries.is_empty() {
+                push(Ev::AnsWay(n.idx, true), 0, &mut out);
+            }
+            if !n.inbound.is_empty() {
+                push(Ev::Respond(n.idx), 0, &mut out);
+            }
+        }
+        for (k, s) in self.submitted.iter().enumerate() {
+            if !*s {
+                push(Ev::Submit(k), 0, &mut out);
+            }
+        }
+        if !self.inflight.is_empty() {
+            push(Ev::Deliver(0), 0, &mut out);
+        } else if self.earliest_deadline().is_some() {
+            push(Ev::Timer, 0, &mut out);
+        }
+        for i in 0..self.inflight.len() {
+            if self.cfg.allow_reorder {
+                push(Ev::Deliver(i), 1, &mut out);
+            }
+            if self.cfg.allow_drop {
+                push(Ev::Drop(i), 1, &mut out);
+            }
+            if self.cfg.allow_dup {
+                push(Ev::Dup(i), 1, &mut out);
+            }
+        }
+        if self.cfg.allow_late_way {
+            for n in &self.nodes {
+                if !n.way_queries.is_empty() {
+                    push(Ev::AnsWay(n.idx, false), 1, &mut out);
+                }
             }
         }
         if self.cfg.allow_early_timer && self.earliest_deadline().is_some() {
@@ -717,7 +792,23 @@ impl World {
             self.delivered_now.push((i, d.kind, src, claimed, d.nonce));
             self.delivered_origin.push(d.origin);
             // C04 / C13: does this datagram complete the answer of a request of node i?
-            let (plain, _k) = self.read(d);
+            let (plain, k) = self.read(d);
+            if let Some(k) = k {
+                // a datagram that decrypts under the receiver's session key is a use of that session
+                // (sessions are identified by the receiver's own encryption key)
+                if let Some(s) = self.snap(i) {
+                    for sess in &s.sessions {
+                        if sess.decryption_key == k {
+                            self.last_use_pending.push((i, sess.encryption_key));
+                        }
+                        if let Some((e, dk)) = sess.old_keys {
+                            if dk == k {
+                                self.last_use_pending.push((i, e));
+                            }
+                        }
+                    }
+                }
+            }
             if let Plain::Response(id, _) = &plain {
                 self.note_answer_delivery(i, id.clone(), src, d.seq);
             }
@@ -845,6 +936,19 @@ impl World {
                     }
                 }
                 self.count("datagrams_attributed_to_a_key");
+                // harness-side idle time of the session this datagram was encrypted under
+                // (byte-identical retransmissions were encrypted earlier and are no new use)
+                let retransmission = self.log[..self.log_mark].iter().any(|o| o.bytes == d.bytes);
+                if !retransmission {
+                    let pk = (owner, k);
+                    if let (true, Some(t), Some(lu)) = (self.monitors.c15 && d.kind == 0, self.cfg.session_timeout, self.last_use.get(&pk)) {
+                        let idle = now.saturating_duration_since(*lu);
+                        if idle > t {
+                            self.violate("C15", "a session unused for longer than the session timeout is never used again to encrypt a message", "expired-session-encrypts", format!("node {owner} sent a message to {} under a session last used {:?} ago (timeout {:?}; last use = last datagram encrypted or accepted under it)", d.dst, idle, t));
+                        }
+                    }
+                    self.last_use.insert(pk, now);
+                }
                 if let Plain::Request(id, _) = &plain {
                     if let Some(w) = (0..self.cfg.workload.len()).find(|w| workload_id(*w) == *id && self.cfg.workload[*w].from == owner) {
                         *self.ledger[w].transmissions.entry(k).or_insert(0) += 1;
@@ -854,6 +958,12 @@ impl World {
                     }
                 }
             }
+        }
+
+        // capacity victim by harness-side recency (before this step's receipts are applied)
+        let use_before = self.last_use.clone();
+        for (i, key) in std::mem::take(&mut self.last_use_pending) {
+            self.last_use.insert((i, key), now);
         }
 
         /* C04: outcome ledger */
@@ -1020,6 +1130,15 @@ impl World {
                             self.count("capacity_evictions");
                             if *missing[0] != pre_peers[0] {
                                 self.violate("C15", "when the capacity is reached the least recently used session is dropped", "wrong-victim", format!("node {i}: dropped {} but least recently used was {}", missing[0].socket_addr, pre_peers[0].socket_addr));
+                            }
+                            // the same by the harness' own record of real uses
+                            let key_of = |a: &NodeAddress| p.sessions.iter().find(|s| &s.addr == a).map(|s| s.encryption_key).unwrap_or([0; 16]);
+                            let lu = |a: &NodeAddress| use_before.get(&(i, key_of(a))).copied().unwrap_or(self.t0);
+                            let oldest = pre_peers.iter().min_by_key(|a| lu(a));
+                            if let Some(o) = oldest {
+                                if lu(missing[0]) > lu(o) + Duration::from_millis(5) {
+                                    self.violate("C15", "when the capacity is reached the least recently used session is dropped", "wrong-victim-by-use", format!("node {i}: dropped {} (last really used {:?} ago) although {} was last used {:?} ago", missing[0].socket_addr, now.saturating_duration_since(lu(missing[0])), o.socket_addr, now.saturating_duration_since(lu(o))));
+                                }
                             }
                         }
                     }
